@@ -178,8 +178,18 @@ def measure(family: str, seed: int, n: int):
             if im != mo:
                 stats['impl_ne_hand'] += 1
                 if gsame: stats['gen_follows_impl'] += 1; note('gen=impl!=hand', {'nodes': nodes, 'impl': im, 'hand': mo})
-    else:
+    elif not hasattr(importlib.import_module('harness.props.' + family.lower()), 'genexec_measure'):
         raise SystemExit(f'no family {family}')
+    # round two (notes/NOTES_genexec2.md): the checks whose generated column is a whole-document comparison bring their own
+    # measurement `genexec_measure(seed, n) -> {cases, impl_ne_hand, gen_follows_impl, gen_ne_impl, examples: [[kind, info]]}`
+    mod = importlib.import_module('harness.props.' + family.lower())
+    if hasattr(mod, 'genexec_measure'):
+        extra = mod.genexec_measure(seed, n)
+        for k, v in extra.items():
+            if k == 'examples':
+                for e in v: note(e[0], e[1])
+            elif isinstance(v, int): stats[k] = stats.get(k, 0) + v
+            else: stats[k] = v
     print('RESULT ' + json.dumps(stats, default=str))
 
 # ------------------------------------------------------------------------------------------------ stage A: prepare
